@@ -22,7 +22,7 @@ OBLIGATIONS = [
     'C03.instSigErrs_nil', 'C03.instErrs_nil', 'C03.driverErrs_nil', 'C03.bodyErrs_nil',
     'V.WF.mem_exprIds', 'V.WF.mem_lhsIds', 'V.WF.mem_stmtIds', 'V.WF.mem_stmtTargets', 'V.WF.mem_itemIds', 'V.WF.mem_uses',
     'C03.instErrs_congr', 'C03.itemDrivers_congr', 'C03.bodyErrs_congr', 'C03.lookup_replace', 'C03.same_sig_interchangeable',
-    'C03.abs_binding_counterexample',
+    'C03.abs_binding_counterexample_prefix_naming',
     'C03.localWireName_not_keyword', 'C03.getInstanceName_not_keyword', 'C03.reserved_prefix_not_keyword',
     'C03.validName_not_keyword', 'C03.validName_keyword_counterexample_prefix_table',
     'C03.port_reserved_collision_counterexample', 'C03.port_wire_collision_counterexample',
@@ -37,18 +37,16 @@ DRIVER = 'Drv/C03.lean'
 # Every class_expr is a predicate over the replay dict r of ONE primary error (see classify()).
 _SHARED = "r.get('kind') in ('wf','pair') and (r.get('kind')=='pair' or (r.get('err') in ('noPort','widthMismatch','unconnected') and r.get('bound_other')))"
 PROPOSED_FINDINGS = [
-    {"id": "C03-abs-optional-port", "property": "C03", "status": "known", "anchor": "py4hw/logic/arithmetic.py:205",
-     "class_expr": _SHARED + " and r.get('cls')=='Abs' and set(r['diff_ports'])=={'inverted'} and set(r['diff_kinds'])<={'only1','only2','order'}",
-     "witness": {"design": "Top{Abs(a,r0); Abs(a,r1,inverted=n1)} (both 8 bit)", "emitted": "module Abs8(a,r) once; Abs8 i_u1(.a(a),.r(r1),.inverted(n1))"},
-     "what": "Abs.structureName ignores the optional `inverted` port: Abs with and without it share module Abs<w>; the instance that is not emitted first is bound to a body with a different port list (.inverted connects a port the module does not have, or the output stays unconnected)"},
-    {"id": "C03-reg-latch-unnamed-widths", "property": "C03", "status": "known", "anchor": "py4hw/logic/storage.py:114",
-     "class_expr": _SHARED + " and r.get('cls') in ('Reg','Latch') and set(r['diff_kinds'])=={'width'} and set(r['diff_ports'])<={'d','e','r'}",
-     "witness": {"design": "Top{Reg(d0[8],q0[8]); Reg(d1[4],q1[8])}", "emitted": "module Reg8(input [7:0] d, …) once; second instance connects a 4-bit net to d"},
-     "what": "Reg.structureName / Latch.structureName encode only the width of q: instances whose d (or multi-bit e / r) width differs share one module and the later ones are bound to ports of another width"},
-    {"id": "C03-reg-clock-domain", "property": "C03", "status": "known", "anchor": "py4hw/rtl_generation.py:442",
-     "class_expr": _SHARED + " and r.get('cls')=='Reg' and len(r['diff_ports'])>0 and set(r['diff_ports'])<=set(r['clock_names']) and set(r['diff_kinds'])<={'only1','only2','order'}",
-     "witness": {"design": "Top{Reg(d0,q0) on clk; Dom(clockDriver=ClockDriver('clk2', wire=c2)){Reg(d1,q1)}} same width", "emitted": "module Reg8(input clk, …) once; Reg8 i_ff(.clk2(clk2), …)"},
-     "what": "two Regs of equal width in different clock domains share module Reg<w>, whose only body names the clock of the first one: the other instance connects a clock port the module does not have and leaves the real one unconnected"},
+    {"id": "C03-abs-optional-port", "property": "C03", "status": "fixed", "commit": "97fed70", "anchor": "py4hw/logic/arithmetic.py:205",
+     "witness": {"design": "Top{Abs(a,r0); Abs(a,r1,inverted=n1)} (both 8 bit)", "emitted": "before 97fed70: module Abs8(a,r) once; Abs8 i_u1(.a(a),.r(r1),.inverted(n1))"},
+     "what": "fixed: property=C03 97fed70 Abs.structureName ignored the optional `inverted` port: Abs with and without it shared module Abs<w> (now Abs<w>_inv); regression: reuse:abs / multi:Abs streams"},
+    {"id": "C03-reg-latch-unnamed-widths", "property": "C03", "status": "known", "anchor": "py4hw/logic/storage.py:27",
+     "class_expr": _SHARED + " and r.get('cls')=='Latch' and set(r['diff_kinds'])=={'width'} and set(r['diff_ports'])<={'d','e'}",
+     "witness": {"design": "Top{Latch(d0[8],q0[8],e0[1]); Latch(d1[9],q1[8],e1[1])}", "emitted": "module Latch8(input [7:0] d, …) once; second instance connects a 9-bit net to d"},
+     "what": "Latch.structureName encodes only the width of q: instances whose d or e width differs share one module and the later ones are bound to ports of another width (the Reg half of this finding is fixed in /repo e708abb: Reg<w>[_d<w>][_e<w>][_r<w>][_<clk>]; class now excludes Reg)"},
+    {"id": "C03-reg-clock-domain", "property": "C03", "status": "fixed", "commit": "e708abb", "anchor": "py4hw/logic/storage.py:112",
+     "witness": {"design": "Top{Reg(d0,q0) on clk; Dom(clockDriver=ClockDriver('clk2', wire=c2)){Reg(d1,q1)}} same width", "emitted": "before e708abb: module Reg8(input clk, …) once; Reg8 i_ff(.clk2(clk2), …)"},
+     "what": "fixed: property=C03 e708abb two Regs of equal width in different clock domains shared module Reg<w> whose only body named the first clock (now Reg<w>_<clkname> for a clock not named clk); regression: reuse:reg_clk stream"},
     {"id": "C03-aliased-ports-body", "property": "C03", "status": "known", "anchor": "py4hw/rtl_generation.py:163",
      "class_expr": "r.get('kind')=='pair' and r['diff_kinds']==['body'] and r.get('aliased_ports')",
      "witness": {"design": "Top{Add(a,a,r0); Add(a,b,r1)} 4 bit", "emitted": "module Add4 … assign r = b + b + w_ci; (emitted once, also bound to Add(a,b,r1))"},
@@ -87,11 +85,10 @@ PROPOSED_FINDINGS = [
                    "and set(r['source_kinds'])<={'port','wire','instance','clock','param'}",
      "witness": {"design": "structural block with ports a, load, r and addParameter('a', 1)", "emitted": "module ParamMid #( parameter a) ( input clk, input [7:0] a, …"},
      "what": "parameter names share the module name space with ports, w_-prefixed wires, i_-prefixed instances and the implicit clock but are emitted verbatim: a parameter named like a port / `clk` / `w_<wire>` / `i_<instance>` is declared twice"},
-    {"id": "C03-param-chain-repr", "property": "C03", "status": "known", "anchor": "py4hw/base.py:74",
-     "class_expr": "r.get('kind')=='parse' and r.get('python_repr')==['py4hw.base.Parameter']",
+    {"id": "C03-param-chain-repr", "property": "C03", "status": "fixed", "commit": "02b2b6c", "anchor": "py4hw/base.py:74",
      "witness": {"design": "Outer(addParameter('BASE',1)) -> Mid(addParameter('START', outer.getParameter('BASE'))) -> ShiftLeftConstant(n = mid.getParameter('START'))",
-                 "emitted": "assign w_t0 = a << <py4hw.base.Parameter object at 0x7f…>;"},
-     "what": "getParameterValue resolves a forwarded parameter by ONE level only: a parameter forwarded through two structural levels reaches an inlined primitive (ShiftLeft/RightConstant) as a Parameter object and its Python repr is written into the text"},
+                 "emitted": "before 02b2b6c: assign w_t0 = a << <py4hw.base.Parameter object at 0x7f…>;"},
+     "what": "fixed: property=C03 02b2b6c getParameterValue resolved a forwarded parameter by one level only, so a Parameter object's repr reached the text; regression: param stream (levels=2, shift)"},
     {"id": "C03-transpiler-ternary", "property": "C03", "status": "known", "anchor": "py4hw/transpilation/python2verilog_transpilation.py:552",
      "class_expr": "r.get('kind')=='parse' and r.get('has_ifexp') and r.get('kw_in_msg')=='if'",
      "witness": {"design": "self.y = 1 if self.a.get() > 2 else 2", "emitted": "y=if (a>2) begin 1 end else begin 2 end ;"},
@@ -100,19 +97,20 @@ PROPOSED_FINDINGS = [
 
 
 def fail(res, what, replay):
-    """res.fail, with the proposed findings consulted in addition to known_findings.json"""
+    """res.fail where PROPOSED_FINDINGS is authoritative for the ids it contains: a `known` entry absorbs a failure only if
+    ITS class predicate holds (it may be narrower than the one still listed in known_findings.json), a `fixed` entry never
+    does (a recurrence of a repaired defect is a VIOLATION); other listed entries are handled by Result.fail."""
     import common
-    listed = {k.get('id') for k in load_known()}
-    fixed = {k['id'] for k in PROPOSED_FINDINGS if k.get('status') == 'fixed'}
-    for k in load_known():
-        # a finding repaired in /repo must not absorb a recurrence, even while known_findings.json still lists it as known
-        if k.get('id') in fixed and k.get('status') == 'known' and common._matches(k, what, replay):
-            res.failures.append({'what': what + ' [recurrence of fixed finding ' + k['id'] + ']', 'replay': replay})
-            return
+    mine = {k['id']: k for k in PROPOSED_FINDINGS}
     for k in PROPOSED_FINDINGS:
-        if k['id'] not in listed and k.get('status') == 'known' and common._matches(k, what, replay):
+        if k.get('status') == 'known' and common._matches(k, what, replay):
             res.known_hits.append((k, what))
             res.hist('known_finding_hits', k['id'])
+            return
+    for k in load_known():
+        if k.get('property') == 'C03' and k.get('id') in mine and k.get('status') == 'known' and common._matches(k, what, replay):
+            why = 'recurrence of fixed finding' if mine[k['id']].get('status') == 'fixed' else 'outside the narrowed class of'
+            res.failures.append({'what': f"{what} [{why} {k['id']}]", 'replay': replay})
             return
     res.fail(what, replay)
 
